@@ -293,6 +293,21 @@ pub fn check(id: &str, tier: Tier, seed: u64, jobs: usize, max_runs: Option<u64>
     });
     println!("hv: check {} tier={} seed={} runs={} jobs={}", id, tier.name(), seed, total, jobs);
 
+    // last line of defence against a hang of the harness itself: the workers stop on their own at
+    // the deadline (twice: check and twin phase) and minimisation is budgeted; if the whole check is
+    // still running long after that, something outside a simulation is stuck (for instance a worker
+    // blocked on a process-global lock) -- report a harness error, never hang and never a violation
+    {
+        let limit = std::time::Duration::from_secs_f64(deadline_s * 2.0 + 1800.0);
+        let me = std::process::id();
+        let label = id.to_string();
+        std::thread::spawn(move || {
+            std::thread::sleep(limit);
+            println!("HARNESS-ERROR: check {} still running {} s after it started (deadline {} s): the harness is stuck; killing its workers", label, limit.as_secs(), deadline_s);
+            let _ = Command::new("pkill").args(["-KILL", "-P", &me.to_string()]).status();
+            std::process::exit(2);
+        });
+    }
     let summary = Arc::new(Mutex::new(Summary::default()));
     let found: Arc<Mutex<Vec<Found>>> = Arc::new(Mutex::new(Vec::new()));
     let samples: Arc<Mutex<Vec<Value>>> = Arc::new(Mutex::new(Vec::new()));
